@@ -19,7 +19,7 @@ RULE = ("case = batch of 50 random parameter sets (capacity, initial charge, max
         "parameter set is one evaluation with ~8 real charge calls; non-trivial = parameter set with pilot>0 on a non-full battery; "
         "distinct = distinct (batch, index)")
 ASSUMPTIONS = [
-    "capacity 1..316 kWh log-uniform; max power 0.3..100 kW; transition SoC in [0,0.99]; pilots incl. 0, tiny, exact max, huge, +inf (what a default EVSE advertises as its maximum), python/numpy int and float scalars; noise off",
+    "capacity 1..316 kWh log-uniform; max power 0.3..100 kW (4% of the cases: 1e6..1e18 kW); transition SoC in [0,0.99]; pilots incl. 0, tiny, exact max, huge, +inf (what a default EVSE advertises as its maximum), python/numpy int and float scalars; noise off",
     "stepwise calculation is outside the documented continuous law (documented as less accurate) and is not compared with the ODE",
 ]
 ANCHORS = [
@@ -31,7 +31,7 @@ ANCHORS = [
 REQUIRED = ["ideal_judged", "l2_judged", "regime:pilot-limited-below-transition", "regime:power-limited-below-transition",
             "regime:crossing", "regime:rampdown", "regime:pilot-below-envelope-start-in-rampdown", "regime:full",
             "regime:zero-pilot", "reference_crosschecks", "reset_checks", "reset_after_explicit_reset_checks", "split_checks", "same_object_calls_judged",
-            "infinite_or_astronomical_pilots", "numpy_scalar_pilots"]
+            "infinite_or_astronomical_pilots", "numpy_scalar_pilots", "extreme_max_power_or_transition", "shallow_copies_charged"]
 BUDGET_S = {"quick": 200, "thorough": 2400}
 
 
@@ -68,6 +68,12 @@ def run_case(case, obs):
         c0 = cap * rng.choice([0, rng.random(), rng.uniform(0.7, 1), 1, rng.uniform(0.97, 1)])
         pmax = 10 ** rng.uniform(-0.5, 2)
         ts = rng.choice([0, 0.5, 0.8, 0.95, round(rng.random() * 0.99, 4)])
+        if rng.random() < 0.04:
+            # a conditioning corner: a max power many orders above anything the pilot can ask for (the pilot-shifted transition SoC
+            # then rounds to exactly 1: no rampdown region left), from empty, part-full, nearly full and full batteries
+            pmax = rng.choice([1e9, 1e18, 1e6, 1e16])
+            c0 = cap * rng.choice([0, 0.3, 0.999, 1, rng.random()])
+            obs.ev("extreme_max_power_or_transition")
         V = rng.choice([120, 208, 240, 400, round(rng.uniform(100, 500), 1)])
         Tm = rng.choice([1, 5, 15, 60, 0.5, 7.5, round(rng.uniform(0.1, 120), 2)])
         p = rng.choice([0, 1e-3, 6, 16, 32, pmax * 1000 / V, 200, rng.uniform(0, 2 * pmax * 1000 / V), 1e4])
@@ -117,7 +123,8 @@ def run_case(case, obs):
         if p == 0 and (r != 0 or c1 != c0):
             obs.violate("zero_pilot_delivers", f"pilot 0 gave rate {r!r}, charge {c0!r}->{c1!r}", **wit)
         # cross-check of the reference itself against numerical integration (sampled)
-        if i % 10 == 0:
+        stiff = (pmax / cap / (1 - ts)) * (Tm / 60.0) / 6000 > 0.5  # explicit RK4 with 6000 steps is unstable beyond this
+        if i % 10 == 0 and not stiff:
             num = _rk4(cap, c0, pmax, ts, p, V, Tm)
             obs.ev("reference_crosschecks")
             if not (abs(num - ref) <= 1e-6 * max(1.0, abs(ref - c0)) + 1e-7 * cap):
@@ -131,6 +138,23 @@ def run_case(case, obs):
                 if not (abs(sol.y[0][-1] - ref) <= 1e-6 * max(1.0, abs(ref - c0)) + 1e-7 * cap):
                     obs.violate("reference_oracle_disagrees_with_numerical_integration",
                                 f"analytic {ref!r} vs LSODA {sol.y[0][-1]!r}", **wit)
+        # ---------------- a shallow copy (copy.copy) is a battery of its own: charging it follows the law from the copied state and
+        # leaves the object it was copied from alone
+        if i % 9 == 4:
+            import copy as _copy
+            src = _mk(cap, c0, pmax, ts)
+            cp = _copy.copy(src)
+            rc = cp.charge(p, V, Tm)
+            cc = battery_state(cp)[0]
+            obs.ev("shallow_copies_charged")
+            if not (abs(cc - ref) <= tol) or battery_state(src)[0] != c0:
+                obs.violate("shallow_copy_not_independent", f"copy.copy(battery).charge(): copy holds {cc!r} (law {ref!r}), the original went from "
+                            f"{c0!r} to {battery_state(src)[0]!r}", **wit)
+            src_i = Battery(cap, c0, pmax)
+            cpi = _copy.copy(src_i)
+            cpi.charge(p, V, Tm)
+            if not (abs(battery_state(cpi)[0] - ec) <= tol) or battery_state(src_i)[0] != c0:
+                obs.violate("shallow_copy_not_independent", "ideal battery: copy.copy() shares state with the original", **wit)
         # ---------------- relations on the real code
         b1 = _mk(cap, c0, pmax, ts)
         b1.charge(p, V, Tm / 2)
